@@ -1,7 +1,7 @@
 (* C12  Training from statistics is independent of bag partitioning and scheduling. *)
 From Coq Require Import Reals List.
 From Coq Require String.
-From BLE Require Import Num.InstR Model.IVector Generated.Facts Proofs.RLemmas Proofs.IVectorR Proofs.FactsDefs Proofs.Sched.
+From BLE Require Import Num.InstR Model.IVector Generated.Facts Proofs.RLemmas Proofs.IVectorR Proofs.Bag Proofs.FactsDefs Proofs.Sched.
 Import ListNotations IR.
 Open Scope R_scope.
 
@@ -30,6 +30,20 @@ Theorem C12_accumulators_commutative_monoid (C D t : nat) (a b c : acc) :
   /\ (acc_ok C D t a -> acc_add (zero_acc C D t) a = a).
 Proof. exact (conj (acc_add_comm a b) (conj (acc_add_assoc a b c) (acc_add_zero_l C D t a))). Qed.
 Print Assumptions C12_accumulators_commutative_monoid.
+
+(* ISV / JFA: the bag is regrouped into per-class lists by walking the partitions with one running index into the
+   label list; the groups depend only on the concatenation of the partitions (any number and sizes, mixed classes,
+   single-element and empty partitions, unsorted labels), and every statistic lands in exactly one group *)
+Theorem C12_regrouping_independent_of_partitioning (A : Type) (K : nat) (parts parts' : list (list A)) (y : list nat) :
+  concat parts = concat parts' -> (length (concat parts) <= length y)%nat -> regroup A K parts y = regroup A K parts' y.
+Proof. exact (regroup_partition_independent A K parts parts' y). Qed.
+Print Assumptions C12_regrouping_independent_of_partitioning.
+
+Theorem C12_every_statistic_enters_exactly_one_class (A : Type) (K : nat) (parts : list (list A)) (y : list nat) :
+  length (concat parts) = length y -> Forall (fun l => (l < K)%nat) y ->
+  fold_right Nat.add 0%nat (map (@length A) (regroup A K parts y)) = length (concat parts).
+Proof. exact (regroup_counts A K parts y). Qed.
+Print Assumptions C12_every_statistic_enters_exactly_one_class.
 
 (* scheduling and isolation: the C04 theorems, instantiated for the bag trainers *)
 Theorem C12_any_valid_task_order (V : Type) (dflt : V) (g : graph V) (sched : list nat) :
